@@ -1,4 +1,5 @@
 import Acra.Drv.SpecFTI
+import Acra.Drv.SpecCh11
 namespace Acra.Drv
-def specFuncs : List Func := specFuncsFTI
+def specFuncs : List Func := specFuncsFTI ++ specFuncsCh11
 end Acra.Drv
